@@ -3,6 +3,7 @@ CONSTANTS SympyParenthesises = TRUE
  SafeNames = FALSE
  ClassifiesDiscrete = TRUE
  PrintsValueExpressions = TRUE
+          OneListPerVariable = TRUE
           Family = "cex"
 INIT Init
 NEXT Next
